@@ -1,4 +1,4 @@
-import RulioProofs.PatIndexHist
+import RulioProofs.PatIndexState
 
 /-! # C01 — event dispatch evaluates exactly the rules whose `when` matches: the rule index
 
@@ -12,6 +12,8 @@ It is the composition of
 2. `search_embeds` — `searchPairs` follows every embedded path, whatever else is in the trie;
 3. `match_embeds` — a pattern of the fragment `IdxOK` that lies over an event of the fragment `EvOK` embeds;
 4. `index_invariant`, `index_complete` — for all histories of index operations and all events;
+   `state_index_invariant`, `state_index_complete` — the same for all histories of the indexed *state*
+   model (`St.iAdd`, `St.irem` with its cascade, `iGet`, `isearch`, `iFindRules` with their expiry side effects);
 5. negative theorems with concrete witnesses for what lies outside the fragments (recorded findings).
 
 All statements are about the executable model (`PI.mod`, `PI.search`, `piAdd`, `piRem`, `piSearch`), for every
@@ -151,14 +153,17 @@ example : IdxOK [("b", .obj [("c", .str "?x")]), ("a", .arr [.num 2, .num 1]), (
   decide +kernel
 example : EvOK [("b", .obj [("c", .num 7), ("d", .null)]), ("a", .arr [.num 3, .num 2, .num 1]),
     ("e", .arr [.obj [("z", .bool true)]])] = true := by decide +kernel
-example : pmv [("?x", .num 7)] (.obj [("b", .obj [("c", .str "?x")]), ("a", .arr [.num 2, .num 1])])
-    (.obj [("b", .obj [("c", .num 7), ("d", .null)]), ("a", .arr [.num 3, .num 2, .num 1])]) = true := by
+example : pmv [("?x", .num 7)]
+    (.obj [("b", .obj [("c", .str "?x")]), ("a", .arr [.num 2, .num 1]), ("e", .arr [.obj []])])
+    (.obj [("b", .obj [("c", .num 7), ("d", .null)]), ("a", .arr [.num 3, .num 2, .num 1]),
+      ("e", .arr [.obj [("z", .bool true)]])]) = true := by
   have ha : isVar "a" = false := by decide +kernel
   have hb : isVar "b" = false := by decide +kernel
   have hc : isVar "c" = false := by decide +kernel
+  have he : isVar "e" = false := by decide +kernel
   have hx : isVar "?x" = true := by decide +kernel
-  simp [pmv_obj, pmO_cons_const _ ha, pmO_cons_const _ hb, pmO_cons_const _ hc, pmO_nil, lookupKey, pmv_arr,
-    pmA_cons, pmA_nil, pmPick_cons, pmPick_nil, pmv_str, pmStr, Bs.get?, hx, pmv.eq_def, BEq.beq, J.beq]
+  simp [pmO_cons_const _ ha, pmO_cons_const _ hb, pmO_cons_const _ hc, pmO_cons_const _ he, pmO_nil, lookupKey,
+    pmA_cons, pmA_nil, pmPick_cons, pmPick_nil, pmStr, Bs.get?, hx, pmv.eq_def, BEq.beq, J.beq]
 
 /-! ## 4. all histories -/
 
@@ -211,6 +216,55 @@ example :
     foundIn (piSearch s.ri [("a", .num 1), ("b", .null)]) "r1" = false ∧
     foundIn (piSearch s.ri [("a", .num 2), ("b", .null)]) "r2" = false) := by
   decide +kernel
+
+/-! ## 4b. all histories of the indexed state model -/
+
+/-- **each operation of the indexed state preserves the rule-index invariant** `StIdx` (id lists duplicate
+free; every stored non-scheduled rule — `whenOf`, the notion of the dispatch specification — has its id at
+the end of its `when` pattern's path): `add` (which unindexes the previous rule stored under the id, and puts
+it back when the new one is rejected), `rem` with its `deleteWith` cascade for every recursion budget, and
+the reads that expire facts on the way (`get`, `search`, `findRules`). -/
+theorem state_index_step (s : St) (h : StIdx s) :
+    (∀ given x now, StIdx (s.iadd given x now).1) ∧ (∀ given x now, StIdx (s.iAdd given x now).1) ∧
+    (∀ fuel id now, StIdx (St.irem fuel s id now).1) ∧ (∀ id now, StIdx (s.iGet id now).1) ∧
+    (∀ fuel p now, StIdx (St.isearch fuel s p now).1) ∧ (∀ ev now, StIdx (s.iFindRules ev now).1) :=
+  ⟨fun g x n => stIdx_iadd s g x n h, fun g x n => stIdx_iAdd s g x n h, fun f i n => stIdx_irem f s i n h,
+   fun i n => stIdx_iGet s i n h, fun f p n => stIdx_isearch f s p n h, fun e n => stIdx_iFindRules s e n h⟩
+
+/-- **the invariant holds in every reachable indexed state** (induction over the operation history) -/
+theorem state_index_invariant (s : St) (h : IReach s) : StIdx s := stIdx_of_reach h
+
+/-- **`index_complete` for the state model**: in every indexed state reachable by any history of
+`add` / `rem` / `get` / `search` / `findRules` / `clear`, for every event of the fragment `EvOK`, the candidate
+search of `doFindRules` succeeds and returns the id of every stored, non-scheduled rule whose `when` pattern
+is in the fragment `IdxOK` and lies over the event. -/
+theorem state_index_complete (s : St) (h : IReach s) (ev : Obj) (id : String) (fact pat : Obj) (σ : Bs)
+    (hstored : amGet s.facts id = some fact) (hwhen : whenOf fact = some pat)
+    (hp : IdxOK pat = true) (hev : EvOK ev = true) (hm : pmv σ (.obj pat) (.obj ev) = true) :
+    ∃ ids, piSearch s.ri ev = .ok ids ∧ id ∈ ids := by
+  obtain ⟨π, hπ, hid⟩ := (state_index_invariant s h).2 id fact pat hstored hwhen
+  obtain ⟨π', hπ', hemb⟩ := match_embeds σ pat ev hp hev hm
+  rw [hπ] at hπ'; cases hπ'
+  obtain ⟨ids, hs⟩ := piSearch_succeeds s.ri ev hev
+  exact ⟨ids, hs, piSearch_embeds _ ev π id ids hid hemb hs⟩
+
+/-- non-vacuity: a reachable state (rule added, replaced, a second rule added and removed) whose stored rule
+has the replaced `when` -/
+example :
+    let r1 : Obj := [("rule", .obj [("when", .obj [("a", .num 1)]), ("action", .null)])]
+    let r1' : Obj := [("rule", .obj [("when", .obj [("a", .arr [.num 2])]), ("action", .null)])]
+    let r2 : Obj := [("rule", .obj [("when", .obj [("b", .str "?x")]), ("action", .null)])]
+    let s0 : St := { kind := .indexed }
+    let s := (St.irem 50 (((s0.iAdd "r1" r1 0).1.iAdd "r2" r2 0).1.iAdd "r1" r1' 0).1 "r2" 0).1
+    ((amGet s.facts "r1").bind whenOf).map (fun p => path (mapToPairs p)) = some (some [.str "a", .str "F_2"]) ∧
+    (amGet s.facts "r2").isNone = true ∧
+    foundIn (piSearch s.ri [("a", .arr [.num 1, .num 2]), ("b", .null)]) "r1" = true ∧
+    foundIn (piSearch s.ri [("a", .num 1), ("b", .null)]) "r1" = false ∧
+    foundIn (piSearch s.ri [("a", .arr [.num 1, .num 2]), ("b", .null)]) "r2" = false := by
+  decide +kernel
+example : IReach (St.irem 50 (((({ kind := .indexed } : St).iAdd "r1"
+    [("rule", .obj [("when", .obj [("a", .num 1)])])] 0).1.iAdd "r2" [("x", .num 1)] 0).1) "r2" 0).1 :=
+  .rem _ _ _ _ (.add _ _ _ _ (.add _ _ _ _ .init))
 
 /-! ## 5. outside the fragments: recorded findings of the real code (concrete witnesses) -/
 
@@ -289,6 +343,9 @@ theorem repaired_shapes_found :
 #print axioms index_invariant
 #print axioms index_ops_frame
 #print axioms index_complete
+#print axioms state_index_step
+#print axioms state_index_invariant
+#print axioms state_index_complete
 #print axioms var_and_const_in_array_missed
 #print axioms var_and_number_in_array_rejected
 #print axioms property_variable_hidden
